@@ -369,7 +369,7 @@ fn misc_lane(ctx: &mut Ctx, idx: u64) {
         1 => {
             let path = ["/usr/share/keyrings/x.gpg", "relative/key.asc", "/etc/apt/é.gpg"][r.below(3)];
             roundtrip(ctx, "Signature", &Signature::KeyPath(path.into()), |x| x.to_string(), "key-path");
-            let block = ["-----BEGIN PGP PUBLIC KEY BLOCK-----\n.\nmDMEY865UxYJ\n=5NZE\n-----END PGP PUBLIC KEY BLOCK-----", "one-line-block", "a\nb"][r.below(3)];
+            let block = ["-----BEGIN PGP PUBLIC KEY BLOCK-----\n.\nmDMEY865UxYJ\n=5NZE\n-----END PGP PUBLIC KEY BLOCK-----", "one-line-block", "a\nb", "\n-----BEGIN PGP PUBLIC KEY BLOCK-----\nmDME\n-----END PGP PUBLIC KEY BLOCK-----", "\tindented first line\nsecond line", "  Comment: leading blanks\nx"][r.below(6)];
             roundtrip(ctx, "Signature", &Signature::KeyBlock(block.to_string()), |x| x.to_string(), "key-block");
         }
         _ => {
